@@ -67,6 +67,16 @@ func c03Eval(c *ctx, b []byte, fault string, nontrivial bool) {
 	if !acc {
 		return
 	}
+	// the decoder's caller owns the buffer: reusing it for the next frame must not change the message just returned
+	before := append([]byte(nil), msg.ToBytes()...)
+	typeBefore := msg.Type()
+	for i := range exact {
+		exact[i] ^= 0x5A
+	}
+	if !bytes.Equal(msg.ToBytes(), before) || msg.Type() != typeBefore {
+		c.Violation("C03/returned-message-changes-with-the-input-buffer", fmt.Sprintf("after the input buffer of %x was overwritten the message encodes to %x (was %x), type %s (was %s)", clipB(b), clipB(msg.ToBytes()), clipB(before), msg.Type(), typeBefore), c03Case{Hex: hex.EncodeToString(b), Fault: fault})
+		return
+	}
 	if d.Control {
 		wantType := ref.ControlType(d.Header[4], d.Header[5])
 		if msg.Type() != wantType || !bytes.Equal(msg.ToBytes(), b) {
@@ -245,6 +255,12 @@ func runC03(c *ctx) {
 		c03Eval(c, bb, "valid/nonminimal-mixed", !bytes.Equal(bb, b))
 	})
 
+	// a well-formed message longer than 16 MiB (two 9 MB items in a list)
+	{
+		half := &ref.Item{Kind: ref.B, Slots: make([]ref.Slot, 9<<20)}
+		m := &ref.Msg{Stream: 7, Function: 3, W: 1, Dir: "H<->E", Session: 5, Item: &ref.Item{Kind: ref.L, Children: []*ref.Item{half, half}}}
+		c03Eval(c, ref.EncodeMessage(m), "valid/longer-than-16MiB", true)
+	}
 	// control messages: all kinds, valid and with text
 	r0 := c.rnd.Derive(3)
 	for st := 0; st < 256; st++ {
@@ -399,7 +415,7 @@ func runC03(c *ctx) {
 			c03Eval(c, ref.PatchLen(b), "random/item-soup", true)
 		}
 	})
-	c.Required = []string{"fault-seeds", "ref-accepts/valid/nonminimal-single", "ref-rejects/truncate/patched", "ref-rejects/append/patched", "ref-rejects/control/with-text", "ref-accepts/set/length", "ref-rejects/set/length", "ref-rejects/set/format", "ref-accepts/random/item-soup"}
+	c.Required = []string{"fault-seeds", "ref-accepts/valid/longer-than-16MiB", "ref-accepts/valid/nonminimal-single", "ref-rejects/truncate/patched", "ref-rejects/append/patched", "ref-rejects/control/with-text", "ref-accepts/set/length", "ref-rejects/set/length", "ref-rejects/set/format", "ref-accepts/random/item-soup"}
 }
 
 func replayC03(c *ctx, raw json.RawMessage) {
